@@ -246,6 +246,8 @@ def shape(case):
             if case.get(k):
                 extra += ' %s=%s' % (k, json.dumps(case[k], sort_keys=True)[:200])
         return ' ; '.join(out) + extra
+    if isinstance(case, dict) and 'big' in case:
+        return 'big:' + case['big']
     if isinstance(case, dict) and 'shape' in case:
         return case['shape']
     return ''
